@@ -10,8 +10,9 @@ BDAY = (('ext', 'pandas.tseries.offsets.BDay'), ('ext', 'pandas.tseries.offsets.
 
 def is_business_daily_range(t, start, end, normalized=None):
     """t is pd.date_range(start, end, freq=<business daily>) or pd.bdate_range(start, end) with the two bounds unmodified"""
-    if t[0] != 'call' or t[1][0] != 'ext':
-        return False, 'not a pandas range'
+    if t[0] != 'call' or t[1][0] != 'ext' or t[1][1] not in ('pandas.bdate_range', 'pandas.date_range'):
+        # days produced some other way (hand-written stepping, filtering a calendar-day range, ...): not read by this rule
+        return None, 'not a pandas business-day range: %s' % fmt(t)[:100]
     name = t[1][1]
     args, kws = list(t[2]), dict(t[3])
     s = args[0] if args else kws.get('start')
@@ -86,6 +87,8 @@ def clock_events(ctx):
 
 def check(ctx):
     M = ctx.M
+    from ..lib import one_shot_state
+    ctx.sub(one_shot_state, 'C12.S1', CLS)          # the clock can be iterated again (same events every time)
     # ---- S1: the source of days
     ws = writers_of_attr(M, 'business_days')
     ctx.require(len(ws) == 1 and ws[0].fn.qn == CLS + '.__init__', 'C12.S1', 'business_days is written once, in the constructor', ws[0].where if ws else None,
@@ -106,6 +109,12 @@ def check(ctx):
         for f_, name in (('pre_market', 'pre_market'), ('post_market', 'post_market')):
             x = heap_writes(p, f_)
             ctx.require(len(x) == 1 and x[0].value == V(name), 'C12.S2', 'the %s flag is the constructor argument' % name, x[0].site if x else None, key='C12.S2|flag|%s' % name)
+    # the event object carries the instant it was given
+    for ip in summarise(ctx, 'SimulationEvent.__init__', policy=default_policy):
+        if ip.outcome in ('fall', 'return'):
+            w = [x for x in heap_writes(ip, 'ts')]
+            ctx.require(len(w) == 1 and w[0].value == V('ts'), 'C12.S2', 'a SimulationEvent keeps the timestamp it is constructed with, unmodified', w[0].site if w else None,
+                        [fmt(x.value)[:80] for x in w], key='C12.S2|event-ts')
     # ---- S3: end < start is rejected, = and > construct
     fn = ctx.fn(CLS + '.__init__')
     for rel, exp in (('<', 'raise'), ('=', 'ok'), ('>', 'ok')):
@@ -113,12 +122,24 @@ def check(ctx):
         ps = summarise(ctx, fn, policy=default_policy, oracle=val)
         outs = {('raise:' + p.state.exc[1]) if p.outcome == 'raise' else 'ok' for p in ps}
         want = {'raise:ValueError'} if exp == 'raise' else {'ok'}
+        if len(outs) > 1:
+            # the outcome depends on something besides the ordering of the two bounds (e.g. whether the computed range is empty): not decided here
+            ctx.undecided('C12.S3', 'construction is decided by the ordering of start and end alone', fn.site(), 'end %s start: outcomes %s depend on %s' % (rel, sorted(outs), sorted(set(val.unknown))[:3]))
+            continue
         ctx.require(outs == want, 'C12.S3', 'an end %s the start %s' % ({'<': 'earlier than', '=': 'equal to', '>': 'later than'}[rel], 'is rejected with ValueError' if exp == 'raise' else 'is accepted'),
                     fn.site(), 'outcomes %s%s' % (sorted(outs), (' (also depends on %s)' % sorted(set(val.unknown))[:3]) if val.unknown else ''), key='C12.S3|%s' % rel)
     # ---- S2: event order per day, for every flag combination
     table, facts = clock_events(ctx)
+    shape_known = not any(kind in ('shape', 'iter') and not ok for kind, what, ok, where in facts)
     for kind, what, ok, where in facts:
-        ctx.require(ok, 'C12.S2', what, where, key='C12.S2|%s' % kind)
+        if not shape_known:
+            # the day loop is not the recognised `for day in self.business_days` with direct yields: the clauses below read nothing reliable
+            if kind in ('shape', 'iter') and not ok:
+                ctx.undecided('C12.S2', what, where)
+        else:
+            ctx.require(ok, 'C12.S2', what, where, key='C12.S2|%s' % kind)
+    if not shape_known:
+        table = {}
     full = [('pre_market', (0, 0)), ('market_open', (14, 30)), ('market_close', (21, 0)), ('post_market', (23, 59))]
     for (pre, post), seqs in table.items():
         exp = [x for x in full if (x[0] != 'pre_market' or pre) and (x[0] != 'post_market' or post)]
@@ -128,6 +149,15 @@ def check(ctx):
             continue
         seq = seqs[0][0]
         got = [(a, b) for a, b, c in seq]
+        if not got or any(a == '?' or b is None for a, b in got):
+            # stamps that were recognised as Timestamp(datetime(...)) but not on the day being iterated are wrong whatever their time of day
+            off_day = [a for a, b, c in seq if isinstance(c, tuple) and c[1] and not c[0] and b is None and a != '?']
+            if off_day:
+                ctx.violation('C12.S2', 'every event of a day is stamped with that day\'s date, in UTC (pre=%s, post=%s)' % (pre, post), where,
+                              'events %s are built from other date fields than (day.year, day.month, day.day)' % off_day, key='C12.S2|same-day-utc')
+            else:
+                ctx.undecided('C12.S2', 'every event of a day is a SimulationEvent stamped with a literal time of day (pre=%s, post=%s)' % (pre, post), where, 'emits %s' % got)
+            continue
         ctx.require(got == exp, 'C12.S2', 'per day: %s (pre=%s, post=%s)' % (' < '.join('%s %02d:%02d' % (a, b[0], b[1]) for a, b in exp), pre, post), where,
                     'emits %s' % got, key='C12.S2|sequence')
         ctx.require(all(c == (True, True) for a, b, c in seq), 'C12.S2', 'every event of a day is stamped with that day\'s date, in UTC (pre=%s, post=%s)' % (pre, post), where,
